@@ -304,9 +304,13 @@ impl Tablet {
         let mut any_updated = false;
         for (node, _) in self.replicas.all.iter_mut() {
             if let Some(new_node) = recreated_nodes.get(&node.host_id) {
-                assert!(!Arc::ptr_eq(new_node, node));
-                any_updated = true;
-                *node = Arc::clone(new_node);
+                // The replica may already point to the new object: a tablet whose
+                // unknown replicas have just been re-resolved (against the current
+                // nodes) in this very maintenance round does.
+                if !Arc::ptr_eq(new_node, node) {
+                    any_updated = true;
+                    *node = Arc::clone(new_node);
+                }
             }
         }
 
